@@ -12,6 +12,7 @@ import (
 	"net"
 	"net/http"
 	"net/url"
+	"os"
 	"strings"
 	"sync"
 	"syscall"
@@ -73,11 +74,11 @@ type fwd struct {
 	ca     *harnessCA // trusted by the proxy's transport (origins / https upstream proxy)
 	mitmCA *harnessCA
 
-	mu    sync.Mutex
-	names map[string]string // logical host:port -> real address
-	dials []dialRec
-	faults map[string]string // logical host:port -> "refuse" | "timeout"
-	nameFallback *nameTable  // consulted when names has no entry
+	mu           sync.Mutex
+	names        map[string]string // logical host:port -> real address
+	dials        []dialRec
+	faults       map[string]string // logical host:port -> "refuse" | "timeout"
+	nameFallback *nameTable        // consulted when names has no entry
 }
 
 func (f *fwd) mapName(logical, real string) {
@@ -389,10 +390,24 @@ func (c *rawClient) send(b []byte) error {
 }
 
 func (c *rawClient) recv(method string, timeout time.Duration) (*wireMsg, error) {
-	c.conn.SetReadDeadline(time.Now().Add(timeout))
+	dl := time.Now().Add(timeout)
+	c.conn.SetReadDeadline(dl)
 	defer c.conn.SetReadDeadline(time.Time{})
-	return readWireResponse(c.br, method)
+	m, err := readWireResponse(c.br, method)
+	if err != nil && (errors.Is(err, os.ErrDeadlineExceeded) || !time.Now().Before(dl)) {
+		// the parser wraps read errors: keep "nothing more arrived in time" distinguishable from a close
+		return m, recvTimeout{err}
+	}
+	return m, err
 }
+
+// recvTimeout marks a receive that ended because the deadline passed (net.Error, Timeout() == true).
+type recvTimeout struct{ err error }
+
+func (e recvTimeout) Error() string { return "recv timed out: " + e.err.Error() }
+func (e recvTimeout) Unwrap() error { return e.err }
+func (recvTimeout) Timeout() bool   { return true }
+func (recvTimeout) Temporary() bool { return true }
 
 // startTLS upgrades the client side (after a 200 to CONNECT) to TLS.
 func (c *rawClient) startTLS(cfg *tls.Config) error {
